@@ -4,7 +4,8 @@
    case line:  op ; op ; ...      (see chainsel_drv.cpp)
      mw <n> | blk <name> <parent> <kind> | chain <prefix> <parent> <n> | hdr <name>+ | sub <name> req|unreq
      | inv <name> | rec <name>
-   output: one token per hdr/sub/inv/rec op:  <result>,<tip>{,<name>=K.D.F.A.S<seq>}*  (the blocks whose flags changed) *)
+   output: one token per hdr/sub/inv/rec op:  <result>/w<blocks written>,<tip>{,<name>=K.D.F.A.S<seq>}*  (the blocks whose
+   flags changed) *)
 open Conv
 
 type blk = { name : string; bid : int; parent : int; height : int; kind : Model.kind; fixture : bool }
@@ -117,23 +118,24 @@ let model _ line =
               | Model.HPrevNotFound -> "0prev-blk-not-found"
               | Model.HBadPrev -> "0bad-prevblk")
          in
-         emit (go names)
+         emit (go names ^ "/w0")
        | ["sub"; n; rq] ->
          let b = find u n in
          if b.fixture then failwith "sub on fixture block";
          let req = (match rq with "req" -> true | "unreq" -> false | _ -> failwith "sub: req|unreq") in
          let (s', res) = Model.process_new_block parent_of proof_of kind_of (state ()) (z_of_int b.bid) req in
          st := Some s';
-         emit (match res with Model.BFail -> "0o" | Model.BOkOld -> "1o" | Model.BOkNew -> "1n")
+         (* /w<k>: blocks written to the block file: WriteBlock is called exactly when the result is BOkNew *)
+         emit (match res with Model.BFail -> "0o/w0" | Model.BOkOld -> "1o/w0" | Model.BOkNew -> "1n/w1")
        | ["inv"; n] ->
          let b = find u n in
          (* "Block not found" is an RPC error *)
          let kn = Model.known (state ()) (z_of_int b.bid) in
-         st := Some (Model.rpc_invalidate parent_of kind_of (state ()) (z_of_int b.bid)); emit (if kn then "ok" else "err")
+         st := Some (Model.rpc_invalidate parent_of kind_of (state ()) (z_of_int b.bid)); emit ((if kn then "ok" else "err") ^ "/w0")
        | ["rec"; n] ->
          let b = find u n in
          let kn = Model.known (state ()) (z_of_int b.bid) in
-         st := Some (Model.rpc_reconsider parent_of kind_of (state ()) (z_of_int b.bid)); emit (if kn then "ok" else "err")
+         st := Some (Model.rpc_reconsider parent_of kind_of (state ()) (z_of_int b.bid)); emit ((if kn then "ok" else "err") ^ "/w0")
        | _ -> failwith ("bad op " ^ String.concat " " w));
       first := false)
     (split_ops line);
@@ -227,6 +229,9 @@ let holds args case impl =
                     (z_of_int (2 * (pre_tip.height + 1))) (z_of_int pre_tip.height) (z_of_int !minwork) in
                 let expect = hdr_ok && passes && (rq = "req" || cond) in
                 let x1 = flags b in
+                let written = (let n = String.length res in n >= 3 && String.sub res (n - 3) 3 = "/w1") in
+                if written <> x1.d then
+                  raise (Violation (Printf.sprintf "after `%s`: blocks written to the block file (%s) and BLOCK_HAVE_DATA (%b) disagree" what res x1.d));
                 if x1.d <> expect then
                   raise (Violation (Printf.sprintf "after `%s`: block %s (header acceptable %b, passes checks %b, work>=tip & height<=tip+288 & work>=minwork %b) %s stored"
                                       what (if rq = "req" then "requested" else "unrequested") hdr_ok passes cond (if x1.d then "was" else "was not")));
